@@ -68,6 +68,7 @@ func TestC18_LicenceEscrowAndVesting(t *testing.T) {
 		pendingGift := map[string]*big.Int{}
 		giftsToModule := false
 		cfg := map[string]bool{"funders": false, "feegranter": false, "contract": false}
+		forceRightContract := false
 		var funders []sdk.AccAddress
 		var log []string
 		skyNonce := uint64(0)
@@ -193,7 +194,7 @@ func TestC18_LicenceEscrowAndVesting(t *testing.T) {
 			}
 		}
 		configure := func(t *rapid.T) {
-			what := rapid.SampledFrom([]string{"funders", "feegranter", "contract"}).Draw(t, "what")
+			what := rapid.SampledFrom([]string{"funders", "feegranter", "contract", "contract"}).Draw(t, "what")
 			on := rapid.Bool().Draw(t, "on")
 			ctx := c.Ctx()
 			switch what {
@@ -218,9 +219,17 @@ func TestC18_LicenceEscrowAndVesting(t *testing.T) {
 					c.App.PalomaKeeper.Store(ctx).Delete(palomatypes.LightNodeClientFeegranterKey)
 				}
 			case "contract":
+				// the proposal replaces the whole set of sale contracts: besides (or without) the bridge chain's own contract it
+				// may name contracts on chains that sort before and after it
 				var cs []*skywaytypes.LightNodeSaleContract
+				if rapid.IntRange(0, 3).Draw(t, "contractOnEarlierChain") > 0 {
+					cs = append(cs, &skywaytypes.LightNodeSaleContract{ChainReferenceId: "arb-main", ContractAddress: "0x00000000000000000000000000000000000000a7"})
+				}
 				if on {
-					cs = []*skywaytypes.LightNodeSaleContract{{ChainReferenceId: c18Chain, ContractAddress: c18Sale}}
+					cs = append(cs, &skywaytypes.LightNodeSaleContract{ChainReferenceId: c18Chain, ContractAddress: c18Sale})
+				}
+				if rapid.Bool().Draw(t, "contractOnLaterChain") {
+					cs = append(cs, &skywaytypes.LightNodeSaleContract{ChainReferenceId: "zk-main", ContractAddress: "0x00000000000000000000000000000000000000b7"})
 				}
 				if err := c.App.SkywayKeeper.SetAllLighNodeSaleContracts(ctx, cs); err != nil {
 					t.Fatalf("contracts: %v", err)
@@ -236,6 +245,9 @@ func TestC18_LicenceEscrowAndVesting(t *testing.T) {
 			wrongContract := rapid.IntRange(0, 4).Draw(t, "wrongContract") == 0
 			if !cfg["contract"] && rapid.Bool().Draw(t, "noContractAnywhere") {
 				wrongContract = true
+			}
+			if forceRightContract {
+				wrongContract = false
 			}
 			if wrongContract {
 				// another contract, or no originating contract at all (the field is not validated statelessly)
@@ -359,6 +371,28 @@ func TestC18_LicenceEscrowAndVesting(t *testing.T) {
 			"directLicence2": directLicence,
 			"directLicence3": directLicence,
 			"configure":      configure,
+			// governance withdraws the bridge chain's sale contract (the replacement set names other chains only, or
+			// nothing) and the formerly authorised contract reports a sale right afterwards
+			"withdrawContractThenSale": func(t *rapid.T) {
+				if !cfg["contract"] {
+					t.Skip("no contract configured")
+				}
+				var cs []*skywaytypes.LightNodeSaleContract
+				if rapid.Bool().Draw(t, "keepEarlierChain") {
+					cs = append(cs, &skywaytypes.LightNodeSaleContract{ChainReferenceId: "arb-main", ContractAddress: "0x00000000000000000000000000000000000000a7"})
+				}
+				if rapid.Bool().Draw(t, "keepLaterChain") {
+					cs = append(cs, &skywaytypes.LightNodeSaleContract{ChainReferenceId: "zk-main", ContractAddress: "0x00000000000000000000000000000000000000b7"})
+				}
+				if err := c.App.SkywayKeeper.SetAllLighNodeSaleContracts(c.Ctx(), cs); err != nil {
+					t.Fatalf("contracts: %v", err)
+				}
+				cfg["contract"] = false
+				log = append(log, fmt.Sprintf("cfg(contract withdrawn, %d other chains kept)", len(cs)))
+				forceRightContract = true
+				defer func() { forceRightContract = false }()
+				attestedSale(t)
+			},
 			"attestedSale":   attestedSale,
 			"attestedSale2":  attestedSale,
 			"activate":       activate,
